@@ -10,8 +10,9 @@
 (*                                   action as written:                     *)
 (*      [t:"key",k] [t:"chord",mods,k] [t:"multi",acs] [t:"th",tap,hold,to] *)
 (*      [t:"td",acs] [t:"os",a] [t:"fork",left,right] [t:"switch",acs]      *)
-(*      [t:"chordv1",acs] (the outputs of the input chords the key takes    *)
-(*      part in) [t:"unmod",ks] [t:"src"] [t:"trans"] [t:"none"]            *)
+(*      [t:"chordv1",acs,kss] (the outputs of the input chords the key takes*)
+(*      part in, their key sets, and [others] the outputs of the group's    *)
+(*      other chords) [t:"unmod",ks] [t:"src"] [t:"trans"] [t:"none"]            *)
 (*   lkeys  : Seq([c, l])   keys that are (layer-while-held l) wherever they *)
 (*                          resolve;  swkeys : Seq([c, l]) same for          *)
 (*                          layer-switch                                    *)
@@ -44,6 +45,7 @@
 (***************************************************************************)
 EXTENDS Obs
 
+ModKeys == {29, 42, 56, 125, 97, 54, 100, 126}   \* lctl lsft lalt lmet rctl rsft ralt rmet
 SeqSlack == 6     \* ticks a queued key may wait before it restarts the sequence timeout (soft zone)
 
 \* ----- the configuration text --------------------------------------------------------
@@ -74,6 +76,53 @@ ChordSet(a) ==
     [] OTHER -> {}
 ChordSetAll(acs) == IF acs = <<>> THEN {} ELSE ChordSet(Head(acs)) \cup ChordSetAll(Tail(acs))
 
+RECURSIVE Occ(_, _, _)
+RECURSIVE OccAll(_, _, _)
+\* how many times key x is written as an output inside action a
+Occ(a, k, x) ==
+  CASE a.t = "key" -> IF a.k = x THEN 1 ELSE 0
+    [] a.t = "chord" -> Cardinality({i \in DOMAIN a.mods : a.mods[i] = x}) + (IF a.k = x THEN 1 ELSE 0)
+    [] a.t \in {"multi", "td", "switch", "chordv1"} -> OccAll(a.acs, k, x)
+    [] a.t = "th" -> Occ(a.tap, k, x) + Occ(a.hold, k, x) + (IF a.to = a.hold THEN 0 ELSE Occ(a.to, k, x))
+    [] a.t = "os" -> Occ(a.a, k, x)
+    [] a.t = "fork" -> Occ(a.left, k, x) + Occ(a.right, k, x)
+    [] a.t = "unmod" -> Cardinality({i \in DOMAIN a.ks : a.ks[i] = x})
+    [] a.t = "src" -> IF k = x THEN 1 ELSE 0
+    [] OTHER -> 0
+OccAll(acs, k, x) == IF acs = <<>> THEN 0 ELSE Occ(Head(acs), k, x) + OccAll(Tail(acs), k, x)
+
+RECURSIVE PartSets(_, _, _, _)
+RECURSIVE PartSetsAll(_, _, _, _)
+\* for every place where action a (on key k) writes output key x: the set of physical keys that take part in
+\* producing it there ({k}, or the key set of the input chord the output belongs to)
+PartSets(a, k, x, ctx) ==
+  CASE a.t = "key" -> IF a.k = x THEN {ctx} ELSE {}
+    [] a.t = "chord" -> IF x \in SeqToSet(a.mods) \cup {a.k} THEN {ctx} ELSE {}
+    [] a.t \in {"multi", "td", "switch"} -> PartSetsAll(a.acs, k, x, ctx)
+    [] a.t = "chordv1" -> UNION {PartSets(a.acs[i], k, x, SeqToSet(a.kss[i])) : i \in DOMAIN a.acs}
+    [] a.t = "th" -> PartSets(a.tap, k, x, ctx) \cup PartSets(a.hold, k, x, ctx) \cup PartSets(a.to, k, x, ctx)
+    [] a.t = "os" -> PartSets(a.a, k, x, ctx)
+    [] a.t = "fork" -> PartSets(a.left, k, x, ctx) \cup PartSets(a.right, k, x, ctx)
+    [] a.t = "unmod" -> IF x \in SeqToSet(a.ks) THEN {ctx} ELSE {}
+    [] a.t = "src" -> IF k = x THEN {ctx} ELSE {}
+    [] OTHER -> {}
+PartSetsAll(acs, k, x, ctx) ==
+  IF acs = <<>> THEN {} ELSE PartSets(Head(acs), k, x, ctx) \cup PartSetsAll(Tail(acs), k, x, ctx)
+
+RECURSIVE Collect(_, _, _)
+RECURSIVE CollectAll(_, _, _)
+\* what = "unmod": the keys written in unmod / unshift forms inside a;
+\* what = "others": the outputs of the input chords of a's chord group that key k takes no part in
+Collect(a, k, what) ==
+  CASE a.t = "unmod" -> IF what = "unmod" THEN SeqToSet(a.ks) ELSE {}
+    [] a.t = "chordv1" -> IF what = "others" THEN CandSetAll(a.others, k) ELSE CollectAll(a.acs, k, what)
+    [] a.t \in {"multi", "td", "switch"} -> CollectAll(a.acs, k, what)
+    [] a.t = "th" -> Collect(a.tap, k, what) \cup Collect(a.hold, k, what) \cup Collect(a.to, k, what)
+    [] a.t = "os" -> Collect(a.a, k, what)
+    [] a.t = "fork" -> Collect(a.left, k, what) \cup Collect(a.right, k, what)
+    [] OTHER -> {}
+CollectAll(acs, k, what) == IF acs = <<>> THEN {} ELSE Collect(Head(acs), k, what) \cup CollectAll(Tail(acs), k, what)
+
 RECURSIVE FallsThrough(_)
 RECURSIVE FallsThroughAny(_)
 \* a transparent / use-defsrc somewhere in a: the key can come out as itself or as a lower layer's action
@@ -93,20 +142,34 @@ WithOvr(p, S) == S \cup {p.ovr[i].ok : i \in {j \in DOMAIN p.ovr : p.ovr[j].ik \
 KeySet(p) == SeqToSet(p.keys)
 NL(p) == Len(p.layers)
 
+\* the physical keys that are certainly involved whenever k puts x down
+Needs(p, k, x) ==
+  LET ps == UNION {PartSets(ActionAt(p, l, k), k, x, {k}) : l \in 1..Len(p.layers)} IN
+  IF ps = {} THEN {k} ELSE {q \in SeqToSet(p.keys) : \A s \in ps : q \in s}
+
 Derived(p) ==
-  [ lay |-> [l \in 1..NL(p) |-> [k \in KeySet(p) |-> WithOvr(p, CandSet(ActionAt(p, l, k), k))]],
-    ch |-> [l \in 1..NL(p) |-> [k \in KeySet(p) |-> ChordSet(ActionAt(p, l, k))]],
+  [ nl |-> NL(p),
+    lay |-> [l \in 1..NL(p) |-> [k \in KeySet(p) |-> WithOvr(p, CandSet(ActionAt(p, l, k), k))]],
+    \* the output chords of the action, each with: is its last-listed key written more than once in the action?
+    ch |-> [l \in 1..NL(p) |-> [k \in KeySet(p) |->
+              {[m |-> ch.m, k |-> ch.k, dup |-> Occ(ActionAt(p, l, k), k, ch.k) > 1] : ch \in ChordSet(ActionAt(p, l, k))}]],
     fall |-> [l \in 1..NL(p) |-> [k \in KeySet(p) |-> FallsThrough(ActionAt(p, l, k))]],
     \* everything k could ever output, on any layer, plus k itself (over-approximation used to
     \* decide that *no other* key can be the origin of an output)
     broad |-> [k \in KeySet(p) |->
-                 WithOvr(p, {k} \cup UNION {CandSet(ActionAt(p, l, k), k) : l \in 1..NL(p)})] ]
+                 WithOvr(p, {k} \cup UNION {CandSet(ActionAt(p, l, k), k) : l \in 1..NL(p)})],
+    grpo |-> [k \in KeySet(p) |-> UNION {Collect(ActionAt(p, l, k), k, "others") : l \in 1..NL(p)}],
+    unmod |-> UNION {Collect(ActionAt(p, l, k), k, "unmod") : l \in 1..NL(p), k \in KeySet(p)},
+    needs |-> [k \in KeySet(p) |->
+                 [x \in WithOvr(p, {k} \cup UNION {CandSet(ActionAt(p, l, k), k) : l \in 1..NL(p)}) |-> Needs(p, k, x)]] ]
 
 LayerOfKey(tab, c) == LET I == {i \in DOMAIN tab : tab[i].c = c} IN
                       IF I = {} THEN 0 - 1 ELSE tab[CHOOSE i \in I : TRUE].l
 
 MonInit(p) ==
-  [p |-> p, c |-> Derived(p),
+  [\* the parts of the text needed while running (the action trees are folded into c once)
+   p |-> [keys |-> p.keys, lkeys |-> p.lkeys, swkeys |-> p.swkeys, seq |-> p.seq, dl0 |-> p.dl0],
+   c |-> Derived(p),
    osDown |-> {},       \* keys the OS sees pressed
    who |-> <<>>,        \* o \in osDown -> the physical keys that may have put it down (0 = a key no longer held)
    phys |-> {},         \* physical keys held
@@ -146,29 +209,37 @@ SureLayers(m) ==      \* 1-based indices of the layers that are certainly active
 \* the output keys that k certainly put down and still holds down
 Attributed(m, k) ==
   IF ~Known(m, k) \/ k \notin m.phys THEN {}
-  ELSE LET sure == SureLayers(m) \cap (1..NL(m.p))
+  ELSE LET sure == SureLayers(m) \cap (1..m.c.nl)
            narrow == UNION {m.c.lay[l][k] : l \in sure}
                      \cup (IF \E l \in sure : m.c.fall[l][k] THEN {k} ELSE {})
-       IN {o \in m.osDown : m.who[o] = {k} /\ o \in narrow}
+       IN {o \in m.osDown : /\ o \in narrow /\ k \in m.who[o] /\ 0 \notin m.who[o]
+                            \* every possible origin of o involves k (k alone, or input chords k takes part in)
+                            /\ \A q \in m.who[o] : k \in m.c.needs[q][o]}
 
 JudgeRepeat(m, k, out) ==
   LET reps == SelectSeq(out, LAMBDA e : e[1] = "d")
       rest == SelectSeq(out, LAMBDA e : e[1] # "d")
       att == Attributed(m, k)
-      sure == SureLayers(m) \cap (1..NL(m.p))
+      sure == SureLayers(m) \cap (1..m.c.nl)
       r == reps[1][2]
   IN IF Len(reps) > 1 THEN Fail(m, "C14 R1: more than one repeat emitted for one repeat event")
      ELSE IF Len(reps) = 1 /\ r \notin m.osDown
      THEN IF m.p.seq.hidden /\ k \in m.hid
           THEN Fail(m, "C14 R2: repeat emitted for a key that is up at the OS (its press was swallowed by a hidden sequence mode)")
+          ELSE IF r \in ModKeys /\ m.c.unmod \cap m.osDown # {}
+          THEN Fail(m, "C14 R2: repeat emitted for a key that is up at the OS (a modifier lifted by unmod / unshift)")
           ELSE Fail(m, "C14 R2: repeat emitted for a key that is up at the OS")
      ELSE IF att = {} \/ m.seqq > 0 THEN ScanOut(m, rest)
      ELSE IF reps = <<>>
      THEN Fail(m, "C14 R3a: no repeat emitted although the held key is what put an output key down")
      ELSE IF r \notin m.c.broad[k]
-     THEN Fail(m, "C14 R3b: the repeat is not for one of the keys the held key outputs")
-     ELSE IF \E l \in sure : \E ch \in m.c.ch[l][k] : r \in ch.m /\ r # ch.k /\ ch.k \in att
+     THEN IF r \in m.c.grpo[k]
+          THEN Fail(m, "C14 R3b: the repeat is for the output of an input chord (same group) the held key takes no part in")
+          ELSE Fail(m, "C14 R3b: the repeat is not for one of the keys the held key outputs")
+     ELSE IF \E l \in sure : \E ch \in m.c.ch[l][k] : r \in ch.m /\ r # ch.k /\ ch.k \in att /\ ~ch.dup
      THEN Fail(m, "C14 R3c: a modifier of an output chord was repeated instead of its last-listed key")
+     ELSE IF \E l \in sure : \E ch \in m.c.ch[l][k] : r \in ch.m /\ r # ch.k /\ ch.k \in att
+     THEN Fail(m, "C14 R3c: a modifier of an output chord was repeated instead of its last-listed key (the key is also written by another alternative of the same action)")
      ELSE ScanOut(m, rest)
 
 MonIn(m, r) ==
